@@ -23,6 +23,9 @@ THEOREMS = [
 ]
 FILES = HARNESS_BASE + ["lab_*.go", "src_*.go", "c08_*.go"]
 CORPUS = os.path.join(VERIF, "corpus", "C08.tsv")
+# (nullable T) array items / map values: null there is outside the modelled fragment (the specification answers
+# `unsup`), and null at a nullable STRUCT element is rejected by the generated strict decoder (candidate finding)
+NO_NULL_ELEMS = "-elem.nullable"
 CONSTRAINT_KINDS = ("min-1", "max+1", "minLength-1", "maxLength+1")
 
 
@@ -52,8 +55,8 @@ class Case:
     __slots__ = ("id", "pkg", "root", "fmt", "defs", "vir", "hyp")
 
 
-def run_stream(hb, **kw):
-    rows = harness(hb, "c08-lab", **kw)
+def run_stream(hb, hstream="c08-lab", **kw):
+    rows = harness(hb, hstream, **kw)
     cases, docs, skipped = {}, [], []
     for r in rows:
         if r[0] == "S":
@@ -160,9 +163,12 @@ class Runner:
     def match_known(self, text):
         return self.c.match_known(text)
 
-    def stream(self, name, **kw):
+    def stream(self, name, hstream="c08-lab", **kw):
         c = self.c
-        cases, docs, skipped, bad_defs = run_stream(self.hb, **kw)
+        cases, docs, skipped, bad_defs = run_stream(self.hb, hstream, **kw)
+        self.origin = getattr(self, "origin", {})
+        for d in docs:
+            self.origin[id(d)] = (hstream, kw)
         c.oblige("stream %s: every IR is accepted by the Lean VIR reader" % name, not bad_defs, bad_defs[:5])
         st = self.stats
         st["cases"] += len(cases)
@@ -175,6 +181,7 @@ class Runner:
             for tok in set(re.match(r"[a-zA-Z]+", seg).group(0) for seg in d.shape.split("/") if re.match(r"[a-zA-Z]", seg)):
                 self.shapes[tok] += 1
             st["docs"] += 1
+            st["alias_of_alias_paths"] += ("ref(ref)" in d.shape and d.kind != "valid")
             text = None
             # ---- correspondence: model of the generated code vs the generated code ----
             v_out = outside_model(d.vmodel)
@@ -232,6 +239,8 @@ class Runner:
         """returns (format, defs, kind, path, doc, text) of the smallest failing variant"""
         line = "\t".join([d.case.fmt, d.case.defs, d.kind, d.path, d.doc])
         best = (line, case_text(d))
+        if not d.case.defs.startswith("(defs"):
+            return best          # hand-rendered schema text (c08-excl): small by construction, replayed by stream
         tmp = os.path.join(WORK, "c08_shrink_%d.tsv" % os.getpid())
         want = d.verdict.split(" ")[1] if " " in d.verdict else d.verdict
         try:
@@ -286,9 +295,15 @@ class Runner:
                 continue
             if reported < 5:
                 f = line.split("\t")
-                c.violation({"kind": "oracle-failure", "stream": name, "oracle": d.verdict, "format": f[0], "defs": f[1],
-                             "fault_kind": f[2], "fault_path": f[3], "doc": f[4], "case_text": stext,
-                             "pinned_line": line, "how": "./check C08 --replay <this file>"})
+                payload = {"kind": "oracle-failure", "stream": name, "oracle": d.verdict, "format": f[0], "defs": f[1],
+                           "fault_kind": f[2], "fault_path": f[3], "doc": f[4], "case_text": stext,
+                           "how": "./check C08 --replay <this file>"}
+                if f[1].startswith("(defs"):
+                    payload["pinned_line"] = line
+                else:
+                    hs, kw = self.origin[id(d)]
+                    payload.update({"replay_stream": hs, "replay_args": dict(kw, only=d.case.id), "case_id": d.case.id})
+                c.violation(payload)
                 reported += 1
         if self.disagree and not reported:
             name, d, text, which = self.disagree[0]
@@ -328,10 +343,14 @@ def main():
     r = Runner(c, hb)
     if c.replay:
         rp = json.load(open(c.replay))
-        tmp = os.path.join(WORK, "c08_replay_%d.tsv" % os.getpid())
-        open(tmp, "w").write(rp["pinned_line"] + "\n")
-        _, docs, skipped, _ = run_stream(hb, pinned=tmp, degrade=0)
-        os.remove(tmp)
+        if "replay_stream" in rp:
+            _, docs, skipped, _ = run_stream(hb, rp["replay_stream"], **rp["replay_args"])
+            docs = [d for d in docs if d.case.id == rp["case_id"] and d.doc == rp["doc"]]
+        else:
+            tmp = os.path.join(WORK, "c08_replay_%d.tsv" % os.getpid())
+            open(tmp, "w").write(rp["pinned_line"] + "\n")
+            _, docs, skipped, _ = run_stream(hb, pinned=tmp, degrade=0)
+            os.remove(tmp)
         bad = False
         for d in docs:
             print("replay:", d.kind, d.path, d.doc)
@@ -351,11 +370,17 @@ def main():
     # 2. bulk stream, three input formats
     seeds = [c.seed] if quick else [c.seed, c.seed + 100, c.seed + 200]
     for s in seeds:
-        r.stream("c08-lab", n=40 if quick else 130, seed=s, formats="jsonschema,openapi,cue",
+        r.stream("c08-lab", n=40 if quick else 130, seed=s, formats="jsonschema,openapi,cue", switches=NO_NULL_ELEMS,
                  docs=6 if quick else 10, faults=14 if quick else 30)
     # 3. the constructs the default generator routes around (named scalar / collection aliases)
     r.stream("c08-lab-alias", n=24 if quick else 80, seed=c.seed + 7, formats="jsonschema,openapi",
-             switches="+def.scalar,+def.collection,-string.dateTime", docs=4, faults=16 if quick else 30)
+             switches="+def.scalar,+def.collection,-string.dateTime," + NO_NULL_ELEMS, docs=4, faults=16 if quick else 30)
+    # 4. alias-of-alias definitions (ref → ref → struct / scalar) as field type, array item and map value;
+    #    required fields with zero-valued defaults, documents omitting one required-with-default member
+    r.stream("c08-lab-alias2", n=16 if quick else 80, seed=c.seed + 11, formats="jsonschema,openapi,cue",
+             aliasify=1, zerodefaults=1, omit=3, switches=NO_NULL_ELEMS, docs=4, faults=12 if quick else 24)
+    # 5. exclusive bounds in the three formats, documents exactly on every bound
+    r.stream("c08-excl", hstream="c08-excl", n=5 if quick else 40, seed=c.seed)
     r.report()
 
     st = r.stats
@@ -365,8 +390,10 @@ def main():
              st["strict_compared"] >= 0.85 * max(1, st["docs"]), dict(st))
     c.oblige("every generated fault path is followed through the source term", st["unresolvable_fault_paths"] == 0, dict(st))
     c.oblige("fault kinds exercised: every constraint and strict kind occurs",
-             all(r.kinds[k] > 0 for k in CONSTRAINT_KINDS + ("undeclaredKey", "missingRequired", "nullRequired", "wrongType")),
+             all(r.kinds[k] > 0 for k in CONSTRAINT_KINDS + ("undeclaredKey", "missingRequired", "nullRequired", "wrongType",
+                                                             "onExclusiveBound", "omitDefaulted")),
              dict(r.kinds))
+    c.oblige("alias-of-alias definitions occur on fault paths", st["alias_of_alias_paths"] > 0, dict(st))
     c.oblige("nesting exercised: constraints under arrays, maps, references and unions occur",
              all(r.shapes[k] > 0 for k in ("array", "dict", "ref", "oneOfStructs", "oneOfScalars")), dict(r.shapes))
     c.cov["distribution"] = {"fault_kinds": dict(r.kinds), "constructs_on_fault_paths": dict(r.shapes),
